@@ -332,7 +332,8 @@ def run(F, rep):
         'C11.D1|Component::clone|setImportSource(importSource())': 'clones share their import source with the original (known finding of C11); under C06 this is covered by origin SRC in C06.P1: flattening never writes an import source',
         'C11.D1|Units::clone|setImportSource(importSource())': 'clones share their import source with the original (known finding of C11); under C06 this is covered by origin SRC in C06.P1: flattening never writes an import source',
     }
-    c11.run(F, core.Borrowed(rep, exempt=exempt))
+    if not getattr(rep, 'nested', False):
+        c11.run(F, core.Borrowed(rep, exempt=exempt))
 
     # ------------------------------------------------------------------ A: flags gathered over loops
     from engines import rule_accumulators
